@@ -132,10 +132,17 @@ class CodeData(DataclassHideDefault):
         Iterates through all the code data which are included,
         by processing the arguments recursively.
         """
+        # A code object can be loaded by more than one instruction, only yield it once
+        seen = set()
         for block in self.blocks:
             for instruction in block:
                 arg = instruction.arg
-                if isinstance(arg, Constant) and isinstance(arg.constant, CodeData):
+                if (
+                    isinstance(arg, Constant)
+                    and isinstance(arg.constant, CodeData)
+                    and arg.constant not in seen
+                ):
+                    seen.add(arg.constant)
                     yield arg.constant
         # Code objects which no instruction references are kept as additional args
         for additional_arg in self._additional_args:
